@@ -61,6 +61,8 @@ RO = {
     "mixed2": [(225.0, True), (225.0, True), (225.0, False), (210.0, True), (210.0, False), (210.0, False)],
     "mixed2b": [(230.0, True), (230.0, False), (215.0, True), (215.0, True), (215.0, False), (200.0, False)],
     "above": [("MID", False), (200.0, False)],
+    # a level with run-outs only ABOVE the highest mixed level (and below the finite levels)
+    "pure-above-mixed": [(235.0, False), (235.0, False), (225.0, True), (225.0, False), (210.0, True), (210.0, False), (210.0, False)],
     "mixedlow": [("LOW", False), (225.0, True), (225.0, False), (225.0, True)],
 }
 REJECT = ("MaxLikeHood: need at least", "Need at least two different load levels", "Cycle numbers must spread",
@@ -91,7 +93,7 @@ def _tier(tier):
     if tier == "quick":
         return {
             "fast": {"k": (3.0, 5.0), "subsets": SUB6, "reps": (1, 2), "jit": (None, 3),
-                     "ro": ("none", "pure1", "pure2", "mixed2", "above", "mixedlow"),
+                     "ro": ("none", "pure1", "pure2", "mixed2", "above", "mixedlow", "pure-above-mixed"),
                      "load_c": (0.5, 3.0, 1000.0), "cycle_c": (7.0, 0.01), "perms": "some", "all_perms_upto": 4},
             "ml": {"k": (5.0,), "subsets": [[250.0, 300.0, 350.0], [250.0, 300.0, 350.0, 400.0]],
                    "reps": (1, 2), "jit": (0, 3), "ro": ("mixed2", "pure1"),
@@ -192,6 +194,10 @@ def _perms(n, mode, all_upto=0):
 
 def transformations(n, spec):
     out = [["load", c] for c in spec["load_c"]] + [["cycles", c] for c in spec["cycle_c"]]
+    # the frame WITHOUT a fracture column (run-outs are then the tests that reached the largest cycle number - in this
+    # family exactly the rows marked as run-outs, provided there is one), cycles scaled: same clause as cycle scaling
+    if spec.get("all_perms_upto"):           # the closed-form analyzers' group only (Elementary, Probit)
+        out += [["nofrac", c] for c in (1.0, 100.0) + tuple(spec["cycle_c"])]    # 100: every cycle number beyond any absolute limit
     out += [["perm", list(p)] for p in _perms(n, spec.get("perms", "full"), spec.get("all_perms_upto", 0))]
     out.append(["permkeep", list(reversed(range(n)))])
     # the same rows in the same order, but with index labels that are NOT unique (two test campaigns joined with
@@ -380,6 +386,8 @@ def _frame(rows, labels=None):
     import pandas as pd
     df = pd.DataFrame({"load": [float(r[0]) for r in rows], "cycles": [float(r[1]) for r in rows],
                        "fracture": [bool(r[2]) for r in rows]})
+    if labels == "nofrac":
+        return df[["load", "cycles"]]
     if labels is not None:
         df.index = list(labels)
     return df
@@ -394,6 +402,8 @@ def apply_xf(rows, xf):
         return [(r[0] * arg, r[1], r[2]) for r in rows], None, arg, 1.0
     if kind == "cycles":
         return [(r[0], r[1] * arg, r[2]) for r in rows], None, 1.0, arg
+    if kind == "nofrac":
+        return [(r[0], r[1] * arg, r[2]) for r in rows], "nofrac", 1.0, arg
     if kind == "perm":
         return [rows[j] for j in arg], None, 1.0, 1.0
     if kind == "permkeep":
@@ -471,7 +481,7 @@ def check_zones(rows, labels=None):
 def _zones_checked(xf):
     """The zone clause is evaluated on the base frame, every scaled frame, the reversed frame and the frame with
     carried row labels (not on each of the many other permutations)."""
-    return xf[0] != "perm" or xf[1] == sorted(xf[1], reverse=True)
+    return xf[0] != "nofrac" and (xf[0] != "perm" or xf[1] == sorted(xf[1], reverse=True))
 
 
 def check_base(an, s, rows, base, el):
@@ -524,8 +534,10 @@ def compare(an, s, rows, base, other, xf, el):
     """Metamorphic clause for one transformation.  -> (violations, counters)"""
     kind = xf[0]
     clause = {"load": "load-scaling", "cycles": "cycle-scaling", "perm": "permutation", "permkeep": "permutation",
-              "duplabels": "non-unique-row-labels"}[kind]
+              "duplabels": "non-unique-row-labels", "nofrac": "cycle-scaling/frame-without-fracture-column"}[kind]
     cnt = []
+    if kind == "nofrac" and not any(not r[2] for r in rows):
+        return [], ["no-fracture-column: series without run-out (the longest test would become one): executed, not judged"]
     if other["status"] == "raise":
         return [("C18/%s/raises-%s" % (an, other["type"]), {"msg": other["msg"], "clause": clause})], cnt
     if base["status"] == "raise":
@@ -535,7 +547,7 @@ def compare(an, s, rows, base, other, xf, el):
     if base["status"] == "reject":
         return [], ["rejected-consistently/%s" % an]
     lc = xf[1] if kind == "load" else 1.0
-    cc = xf[1] if kind == "cycles" else 1.0
+    cc = xf[1] if kind in ("cycles", "nofrac") else 1.0
     b = base["wc"]
     o = dict(other["wc"])
     o["SD"] = o["SD"] / lc
@@ -633,7 +645,7 @@ def _stag(s, xf):
     t = "k%g-%s-r%d-j%s-%s" % (s["k"], "+".join("%g" % v for v in s["levels"]), s["reps"], s["jit"], s["ro"])
     if xf is None:
         return t
-    return t + "/" + ("%s*%g" % (xf[0], xf[1]) if xf[0] in ("load", "cycles") else xf[0])
+    return t + "/" + ("%s*%g" % (xf[0], xf[1]) if xf[0] in ("load", "cycles", "nofrac") else xf[0])
 
 
 def _llkey(prefix, s=None, xf=None):
